@@ -24,6 +24,20 @@ pub fn discover(case: &Value) -> Value {
     }
 }
 
+/// Subcommand `build`: one run of the build-script entry point, as a build.rs would do it.
+/// case: {"id", "cwd": directory inside a Tauri project (tauri.conf.json with plugins.typegen)}
+/// The tool prints cargo: directives on stdout; the python side takes the last JSON line.
+pub fn build(case: &Value) -> Value {
+    let cwd = case["cwd"].as_str().unwrap();
+    std::env::set_current_dir(cwd).expect("chdir");
+    let r = tauri_typegen::BuildSystem::generate_at_build_time().map_err(|e| e.to_string());
+    println!();
+    match r {
+        Ok(()) => json!({"id": case["id"], "ok": true}),
+        Err(e) => json!({"id": case["id"], "ok": false, "err": e}),
+    }
+}
+
 fn main() {
-    tt_harness::dispatch(&[("discover", discover)]);
+    tt_harness::dispatch(&[("discover", discover), ("build", build)]);
 }
